@@ -431,7 +431,7 @@ impl<'a> Driver<'a> {
                 self.out.readd_present_idx.push(self.out.calls.len());
             }
         }
-        let want_obs = self.oracle.wants_obs();
+        let want_obs = self.oracle.wants_obs() && !self.r.blind;
         let before = if want_obs { Some(observe(&*self.r.g, ObsLevel::BASIC)) } else { None };
         let s = self.r.step(call);
         self.out.calls.push(call.clone());
@@ -658,6 +658,106 @@ pub fn run_concrete(cfg: Cfg, calls: &[Call], oracle: &mut dyn Oracle, trace: Op
     }
     d.out.gen_calls = d.out.calls.len();
     d.out
+}
+
+/// Blind run (see `Runner::blind`): the concrete calls once more with NOTHING asked of the
+/// implementation between them except what the calls themselves return; the oracle sees the
+/// model's alive set in place of keys(). One complete look at the end: the alive set (C02), the
+/// edges and data markers of every vertex (C03), the blankness of every vertex that has not been
+/// written since it was created (C04). What a per-call look would wake up or refresh — a sweep
+/// postponed until somebody asks, a cache that keys() rebuilds — stays asleep until then.
+pub fn run_blind(cfg: Cfg, calls: &[Call], oracle: &mut dyn Oracle) -> Option<Failure> {
+    let prop = oracle.prop();
+    let mut d = Driver::new(cfg, oracle);
+    d.r.blind = true;
+    for c in calls {
+        if !d.step(c) {
+            break;
+        }
+    }
+    if d.out.failure.is_some() {
+        return d.out.failure;
+    }
+    if d.out.closed.is_some() {
+        return None;
+    }
+    final_look(&mut d.r, prop, calls.len())
+}
+
+pub fn final_look(r: &mut Runner, prop: &str, step: usize) -> Option<Failure> {
+    use std::panic::{catch_unwind, AssertUnwindSafe};
+    let mk = |kind: &str, detail: String| Some(Failure { prop: prop.into(), kind: kind.into(), step, detail });
+    let g = &r.g;
+    let Ok(keys) = catch_unwind(AssertUnwindSafe(|| g.keys())) else {
+        return if prop == "C02" { mk("panic_within_limits", "keys() panicked at the end of a blind run".into()) } else { None };
+    };
+    let alive = r.m.alive();
+    if prop == "C02" {
+        let extra: Vec<usize> = keys.iter().copied().filter(|k| !alive.contains(k)).collect();
+        let missing: Vec<usize> = alive.iter().copied().filter(|k| !keys.contains(k)).collect();
+        if !extra.is_empty() || !missing.is_empty() {
+            let kind = if !missing.is_empty() { "alive_set.vertex_missing" } else { "alive_set.vertex_survives" };
+            return mk(kind, format!(
+                "blind run (keys() not asked until the end of the history): keys()={keys:?} but the reference model has {alive:?} (missing {missing:?}, surviving {extra:?})"));
+        }
+        let (len, empty) = (r.g.len(), r.g.is_empty());
+        if len != keys.len() || empty != keys.is_empty() {
+            return mk("len_disagrees_with_keys", format!("blind run: len() = {len}, is_empty() = {empty}, keys() = {keys:?}"));
+        }
+        return None;
+    }
+    for v in &keys {
+        if !r.m.present(*v) {
+            continue;
+        }
+        let mv = r.m.get(*v);
+        let g = &r.g;
+        let Ok((mut got, vp)) = catch_unwind(AssertUnwindSafe(|| {
+            let got: Vec<(Lab, usize)> = g.kids(*v).iter().map(|(l, t)| (Lab::from_label(l), *t)).collect();
+            (got, g.v_print(*v).unwrap_or_default())
+        })) else {
+            return if prop == "C03" { mk("panic_in_query", format!("kids({v}) / v_print({v}) panicked at the end of a blind run")) } else { None };
+        };
+        got.sort();
+        let mut want = mv.edges.clone();
+        want.sort();
+        match prop {
+            "C03" => {
+                if got != want {
+                    return mk("kids.differ", format!("blind run (nothing asked until the end): kids({v}) = {got:?}, but the binds since {v} was created give {want:?}"));
+                }
+                for (l, t) in &mv.edges {
+                    let k = r.g.kid(*v, l.direct());
+                    if k != Some(*t) {
+                        return mk("kid.differs_from_last_bind", format!("blind run: kid({v},{l:?}) = {k:?}, most recent bind says {t}"));
+                    }
+                }
+                if vp.contains('Δ') != mv.data.is_some() {
+                    return mk("data.presence_marker", format!("blind run: v_print({v}) = {vp:?} but the model has data = {:?}", mv.data));
+                }
+            }
+            "C04" => {
+                if want.is_empty() && !got.is_empty() {
+                    return mk("add.stale_edges", format!(
+                        "blind run (nothing asked until the end): vertex {v} has had no bind since add({v}) created it, but kids({v}) = {got:?}"));
+                }
+                if mv.data.is_none() && vp.contains('Δ') {
+                    return mk("add.stale_data", format!(
+                        "blind run: vertex {v} has had no put since add({v}) created it, but v_print({v}) = {vp:?}"));
+                }
+            }
+            _ => {}
+        }
+    }
+    if prop == "C04" {
+        // a vertex that was added and never bound cannot have been collected
+        for v in &alive {
+            if !keys.contains(v) && !r.hist.was_bound(*v) {
+                return mk("add.not_present", format!("blind run: vertex {v} was added, never bound, and is not in keys() = {keys:?}"));
+            }
+        }
+    }
+    None
 }
 
 pub fn make_oracle(prop: &str) -> Box<dyn Oracle> {
